@@ -422,7 +422,7 @@ pub mod topic_handle {
         #[verifier::external_body]
         fn list_subscriptions(&self, paging: Paging) -> (r: Result<SubscriptionsPage, ListSubscriptionsError>)
         { unimplemented!() }
-//@fn src/topics/topic_actor.rs TopicActor::receive tags=C11
+//@fn src/topics/topic_actor.rs TopicActor::receive tags=C11 vmodule=root
 //@ # C11 / C01: one actor turn per request; only Attach / Remove / Delete change the subscription set, each exactly as
 //@ # its handler's contract says
 //@ ensures[C11] (match request { TopicRequest::RemoveSubscription { name, responder } => final(self)@ == (TopicView { subs: old(self)@.subs.remove(name), ..old(self)@ }), TopicRequest::Delete { responder } => (old(self)@.deleted ==> final(self)@ == old(self)@) && (!old(self)@.deleted ==> final(self)@ == (TopicView { subs: Map::empty(), deleted: true, ..old(self)@ })), TopicRequest::ListSubscriptions { paging, responder } => final(self)@ == old(self)@, TopicRequest::PublishMessages { messages, responder } => final(self)@.subs == old(self)@.subs && final(self)@.deleted == old(self)@.deleted, TopicRequest::AttachSubscription { subscription, responder } => final(self)@.deleted == old(self)@.deleted && final(self)@.next == old(self)@.next })
